@@ -1,0 +1,16 @@
+//go:build !verif
+// +build !verif
+
+// Package verifhook provides named instrumentation points used by the
+// out-of-tree runtime verification harness. Without the "verif" build tag
+// every function here is an empty stub that the compiler inlines away.
+package verifhook
+
+// Enabled reports whether the hooks are compiled in.
+const Enabled = false
+
+// Point marks a named place in the code.
+func Point(name string, args ...interface{}) {}
+
+// Size lets the harness override a size computed by the code.
+func Size(name string, v uint64) uint64 { return v }
